@@ -139,8 +139,8 @@ CHECKS = {
              "offset before the end of the data of small files of every kind and encoding (.vtu x 6-9 encodings, .vtp, .vti, .vtr, "
              ".vts, .pvtu index/piece, .pvd index/step, .csv) and the removal of each single DataArray/Piece/DataSet, in both "
              "roles: the command must return non-zero and must not raise.",
-        note=TB + "expat, the raw-appended fallback locator and np.genfromtxt on damaged input are exercised, not modelled; the "
-             "codec-level lemma (a proper prefix of an encoded array never decodes to the full array) is part of C05's model.",
+        note=TB + "expat, the raw-appended fallback locator and np.genfromtxt on damaged input are exercised, not modelled. Codec "
+             "layer: C18_truncated_payload_rejected (every proper prefix of an encoded uncompressed array is rejected or short).",
         technique="Coq proof of the CLI decision layer + exhaustive fault enumeration over cut positions", ref="7 (C18)"),
     "C06": dict(
         text="Theorems (unbounded sizes, any number of pieces, any piece order): duplicate map correct (stable lexicographic "
